@@ -47,13 +47,39 @@ def generate() -> dict[str, str]:
     nested = {n.name: n for n in loop_fn.body if isinstance(n, ast.FunctionDef)}
     for need in ('exabgp', 'trigger', 'one'):
         assert need in nested, f'healthcheck.loop no longer has a nested function {need}'
+    # which targets get past the early returns at the top of `exabgp(target)`: the leading `if <test on target>: return`
+    # statements are evaluated for every state (any mix of `in` / `not in` a tuple of states, `==`, `!=`, `is`, `is not`)
+    def holds(test: ast.expr, name: str) -> bool:
+        if isinstance(test, ast.BoolOp):
+            vals = [holds(v, name) for v in test.values]
+            return all(vals) if isinstance(test.op, ast.And) else any(vals)
+        if isinstance(test, ast.UnaryOp) and isinstance(test.op, ast.Not):
+            return not holds(test.operand, name)
+        assert isinstance(test, ast.Compare) and len(test.ops) == 1 and isinstance(test.left, ast.Name) and test.left.id == 'target', ast.dump(test)
+        op, right = test.ops[0], test.comparators[0]
+        if isinstance(op, (ast.In, ast.NotIn)):
+            member = name in _state_tuple(right)
+            return member if isinstance(op, ast.In) else not member
+        assert isinstance(right, ast.Attribute) and isinstance(right.value, ast.Name) and right.value.id == 'States', ast.dump(right)
+        same = right.attr == name
+        if isinstance(op, (ast.Eq, ast.Is)):
+            return same
+        assert isinstance(op, (ast.NotEq, ast.IsNot)), ast.dump(op)
+        return not same
+
+    guards = []
+    for st in nested['exabgp'].body:
+        if isinstance(st, ast.Expr) and isinstance(st.value, ast.Constant) and isinstance(st.value.value, str):
+            continue  # docstring
+        if isinstance(st, ast.If) and not st.orelse and len(st.body) == 1 and isinstance(st.body[0], ast.Return) and st.body[0].value is None:
+            guards.append(st.test)
+            continue
+        break
+    assert guards, 'exabgp(target) no longer starts with its early returns'
+    handled = [n for n in names if not any(holds(g, n) for g in guards)]
+    silent: list[str] = []
     tests = _membership_tests(nested['exabgp'], 'target')
-    # expected shape (source order): not in (announce targets) ; in (silent) ; in (EXIT,) [ip removal] ; in (DOWN, DISABLED) twice
-    assert tests and tests[0][0] == 'notin', tests
-    assert len(tests) >= 2 and tests[1][0] == 'in', tests
-    handled = tests[0][1]
-    silent = tests[1][1]
-    community_swap = [t[1] for t in tests[2:] if t[0] == 'in']
+    community_swap = [t[1] for t in tests if t[0] == 'in']
     assert ['DOWN', 'DISABLED'] in community_swap, tests
     main_tests = _membership_tests(loop_fn, 'state')
     assert len(main_tests) == 1 and main_tests[0][0] == 'in', main_tests
@@ -73,9 +99,9 @@ def generate() -> dict[str, str]:
 /-- `States` enum of healthcheck.py, in declaration order (value = name) -/
 def states : List String := {lst(names)}
 
-/-- `exabgp(target)`: `if target not in (...): return` -/
+/-- `exabgp(target)`: the targets that get past the early returns at the top (evaluated guard by guard for every state) -/
 def exabgpHandled : List String := {lst(handled)}
-/-- `exabgp(target)`: `if target in (...): return` (handled but nothing is written) -/
+/-- kept for the statement of `c20_tables`: nothing is silent among the above -/
 def exabgpSilent : List String := {lst(silent)}
 /-- main loop: `if state in (...): time.sleep(options.fast)` -/
 def fastSleepStates : List String := {lst(fast)}
